@@ -182,12 +182,17 @@ KNOWN_MATCH: List[Tuple[str, str, str]] = []  # (finding id, job key substring, 
 
 
 def _try_known(rec: Record, ctx: Ctx, ob: Obligation) -> Optional[str]:
+    import re as _re
+
     for fid, jobpat, obname in KNOWN_MATCH:
-        if obname == ob.name and jobpat in getattr(rec, "job_key", ""):
+        hit = obname == ob.name or (obname.startswith("re:") and _re.fullmatch(obname[3:], ob.name) is not None)
+        if hit and jobpat in getattr(rec, "job_key", ""):
             fn = KNOWN_RESTRICTIONS.get(fid)
             if fn is None:
                 continue
             extra = fn(ctx, ob)
+            if extra is False:
+                continue  # not in the witness class of this finding
             if extra is None:
                 return fid  # finding keyed by configuration only
             ob2 = Obligation(ob.name, [extra], ob.goal, ob.info)
